@@ -171,6 +171,32 @@ def verifyCR (p : Product) (e : Env) (amountIn amountOut : Int) : Bool :=
   | none => false
   | some r => if e.esm then decide (r ≥ Dec.one) else decide (r ≥ p.minCr)
 
+/-- the debt asset's price the product uses: the oracle's, or the product's fixed price -/
+def debtPrice (p : Product) (e : Env) : Option Nat := if p.outOracle then e.priceOut else some p.outPrice
+
+/-- **Exact content of the ratio check**, multiplied out over the integers (`P = 10^18`, `m = minCr` as an 18-digit
+fixed-point integer, `dIn`/`dOut` the decimal scales):
+
+`(2m − 1)·dIn·(2·debt·pOut·P² − (P+2)·dOut + 2)  ≤  2·P·dOut·(2·amountIn·pIn·P² + dIn·P)`
+
+Dividing by `4·P³·dIn·dOut`: the exact collateral value `amountIn·pIn/dIn` plus half a unit of the 18th digit is at least
+(minCr − half a unit) × (the exact debt value `debt·pOut/dOut` minus half a unit and one truncation step).
+Proved of every accepted message in `Props/C03.lean`; evaluated on the real vaults by the driver (`ratio_exact`). -/
+def ExactRatio (p : Product) (pin pout : Nat) (amountIn debt : Int) : Prop :=
+  (2 * (p.minCr : Int) - 1) * p.decIn * (2 * (debt * (pout : Int) * Dec.P * Dec.P) - (Dec.P + 2) * p.decOut + 2)
+    ≤ 2 * Dec.P * p.decOut * (2 * (amountIn * (pin : Int) * Dec.P * Dec.P) + p.decIn * Dec.P)
+
+instance (p : Product) (pin pout : Nat) (a b : Int) : Decidable (ExactRatio p pin pout a b) := by
+  unfold ExactRatio; exact inferInstance
+
+/-- with decimal scales dividing `10^18` the values are exact and only the last division rounds:
+the exact ratio `(amountIn·pIn/dIn)/(debt·pOut/dOut)` is at least `minCr − ½·10⁻¹⁸` -/
+def ExactRatioScales (p : Product) (pin pout : Nat) (amountIn debt : Int) : Prop :=
+  (2 * (p.minCr : Int) - 1) * (debt * (pout : Int) * p.decIn) ≤ 2 * Dec.P * (amountIn * (pin : Int) * p.decOut)
+
+instance (p : Product) (pin pout : Nat) (a b : Int) : Decidable (ExactRatioScales p pin pout a b) := by
+  unfold ExactRatioScales; exact inferInstance
+
 /-- `GetAmountOfOtherToken` with both rates = 1 (stable mint): amount of asset 2 for `amt` of asset 1. -/
 def otherToken (amt : Int) (dec1 dec2 : Int) : Int :=
   let t1d := Dec.quo (Dec.mul (Dec.ofInt amt) Dec.one) (Dec.ofInt dec1)
@@ -228,6 +254,7 @@ inductive Msg where
   | fund (to d : Nat) (amt : Int)                -- coins minted outside the vault module (test funding)
   | seize (vaultId : Nat)                        -- liquidationsV2 hand-over to auction custody
   | settle (vaultId : Nat)                       -- the auction of a seized vault closes (auctionsV2 bid.go:188-190)
+  | settle1 (vaultId : Nat)                      -- first-generation auction closes (x/auction dutch.go CloseDutchAuction)
   deriving Repr
 
 def create (s : State) (p : Product) (e : Env) (from_ app prod : Nat) (amtIn amtOut : Int) : Option State :=
@@ -436,13 +463,27 @@ def settle (s : State) (p : Product) (vaultId : Nat) : Option State :=
                   coll := upd1 s.coll l.product (s.coll l.product - l.amountIn),
                   minted := upd1 s.minted l.product (s.minted l.product - l.debt) }
 
+/-- first-generation settlement (x/auction/keeper/dutch.go `CloseDutchAuction` 405-418 + `UpdateProtocolData` 665-679):
+the auction burns exactly the seized vault's PRINCIPAL (`lockedVault.AmountOut`; interest, closing fee and penalty go to
+the collector), and the product's totals are reduced by the seized collateral and by that same principal — so, unlike
+the second generation, every ledger equation stays exact. -/
+def settle1 (s : State) (p : Product) (vaultId : Nat) : Option State :=
+  match s.locked.find? (·.vaultId = vaultId) with
+  | none => none
+  | some l =>
+    if l.product ≠ p.id then none else
+    some { s with locked := s.locked.erase l,
+                  supply := upd1 s.supply p.denomOut (s.supply p.denomOut - l.amountOut),
+                  coll := upd1 s.coll l.product (s.coll l.product - l.amountIn),
+                  minted := upd1 s.minted l.product (s.minted l.product - l.amountOut) }
+
 /-- the product a message refers to (for `interestCalc` / `seize`: the product of the named vault) -/
 def Msg.product (s : State) : Msg → Option Nat
   | .create _ _ pr _ _ | .deposit _ _ pr _ _ | .withdraw _ _ pr _ _ | .draw _ _ pr _ _ | .repay _ _ pr _ _
   | .close _ _ pr _ | .depositAndDraw _ _ pr _ _ | .stableCreate _ _ pr _ | .stableDeposit _ _ pr _ _
   | .stableWithdraw _ _ pr _ _ => some pr
   | .interestCalc _ v | .seize v => (findVault s v).map (·.product)
-  | .settle v => (s.locked.find? (·.vaultId = v)).map (·.product)
+  | .settle v | .settle1 v => (s.locked.find? (·.vaultId = v)).map (·.product)
   | .donate .. | .fund .. => none
 
 def stepP (s : State) (p : Product) (e : Env) : Msg → Option State
@@ -461,6 +502,7 @@ def stepP (s : State) (p : Product) (e : Env) : Msg → Option State
   | .donate f d x => donate s f d x
   | .fund t d x => fund s t d x
   | .settle v => settle s p v
+  | .settle1 v => settle1 s p v
 
 /-- one message; `cfg` is the static product configuration (extended pair vaults). A message naming an unknown
 product is rejected (`ErrorExtendedPairVaultDoesNotExists`). -/
